@@ -4,7 +4,7 @@ from .. import gen, scenario
 META = {'assumptions': ["str.lower() is CPython's: the model is proved for every lower; the driver uses the table extracted "
                         "from the running interpreter (letters with a one-to-one case mapping)"]}
 
-ASCII = 'abcxyzABCXYZ019_-.:/+*=@!,;$&#~^|<>[]{}'
+ASCII = 'abcxyzABCXYZ019_-.:/+*=@!,;$&#~^|<>[]{}()\'"'
 UNI = 'éÉßäÄöÖñÑçÇωΩжЖдДøØåÅ'      # one-to-one case mapping (no final sigma, no dotted I)
 
 
@@ -66,6 +66,9 @@ def run(ctx, rep):
         else:
             creds = {'roles': []}
         rule = [['role:' + m]]
+        leaf = 'role:' + m
+        if ctx.rng.random() < 0.6 and not any(c.isspace() for c in leaf) and not leaf.endswith(')'):
+            rule = leaf            # the same check written as rule text: through the tokenizer ('(' / quotes inside a name stay)
         scs.append({'rules': {'p': rule}, 'queries': [{'rule': 'p', 'target': target, 'creds': creds}],
                     '_x': x, '_m': m, '_ph': placeholder})
     rep.rules.append('%d role checks: names over mixed-case ASCII letters, digits, punctuation and non-ASCII letters with '
